@@ -531,6 +531,13 @@ def o_join(host, port):
     return host if port is None else "%s:%d" % (host, port)
 
 
+def o_port_text(hostport):
+    """the text after the colon that follows the host of a well-shaped `host[:port]` / `[literal][:port]`
+    (None for anything else: user info, stray or unbalanced brackets)"""
+    mo = re.fullmatch(r"(?:\[[^\[\]@]*\]|[^\[\]@:]*)(?::([^\[\]@]*))?", hostport)
+    return mo.group(1) if mo else None
+
+
 def o_reg_name(host):
     """percent-encode everything but unreserved / sub-delims (RFC 3986 reg-name)"""
     keep = set((UNRESERVED + SUB_DELIMS).encode())
@@ -1340,6 +1347,9 @@ def lib_correspondence(env, rep, impl):
     splits = [impl.util.hostportjoin(h, p) for h in hosts for p in ports] + [
         "h:", "h:abc", "h:1:2", ":80", "[::1]:", "[::1]:x", "[::1]x:7", "u@h:1", "@h", "a@b@[::1]:9",
         "[::1", "::1", "h:065535", "h:65536", "H:1", "[FE80::1%ETH0]:1", "ex%41MPLE:1", "h: 1", "h:+1"]
+    # ports written with look-alikes of digits / with Unicode white space around them: no port is a number but
+    # one of ASCII digits (int() and str.isdigit() think otherwise)
+    splits += [t % ch for ch in UNI_DIGITS + UNI_SPACES for t in ("h:%s", "h:1%s", "h:%s1", "[::1]:%s", "1.2.3.4:8%s")]
     for _ in range(env.scale(1500, 20000)):
         splits.append("".join(rng.choice("ah.:[]@%0159Z") for _ in range(rng.choice([1, 3, 6, 10]))))
     for hp in splits:
@@ -1353,6 +1363,12 @@ def lib_correspondence(env, rep, impl):
         cases.append(c)
         rep.case(c, nontrivial=True)
         rep.count("H")
+        # oracle: whatever follows the colon after the host must be ASCII digits (or nothing)
+        if outs[-1] != "err":
+            port_txt = o_port_text(hp)
+            if port_txt and not re.fullmatch("[0-9]+", port_txt):
+                rep.oracle_fail(c, "hostportsplit(%r) = %s: the port %r is not a number" % (hp, outs[-1], port_txt),
+                                key="hostport-bad-port-accepted")
     compare(env, rep, cases, lines, outs, what="hostport")
     # --- the two facts about this interpreter's Unicode tables that the model relies on
     delim = re.compile("[/?#@:]")
@@ -1483,6 +1499,16 @@ def replay(env, case):
         got = fn(s)
         if got != urllib.parse.quote(s, safe=safe) or o_pct_decode(got) != s:
             return "quote for %s of %r is %r" % (case["set"], s, got)
+        return ""
+    if k == "H":
+        hp = case["hostport"]
+        try:
+            got = impl.util.hostportsplit(hp)
+        except ValueError:
+            return ""
+        port_txt = o_port_text(hp)
+        if port_txt and not re.fullmatch("[0-9]+", port_txt):
+            return "hostportsplit(%r) = %r: the port %r is not a number" % (hp, got, port_txt)
         return ""
     if k == "J":
         j = impl.util.hostportjoin(case["host"], case["port"])
